@@ -318,7 +318,7 @@ impl BinaryMatrix for SparseBinaryMatrix {
     }
 
     fn swap_columns(&mut self, i: usize, j: usize, _: usize) {
-        if j >= self.width - self.num_dense_columns {
+        if i >= self.width - self.num_dense_columns || j >= self.width - self.num_dense_columns {
             unimplemented!(
                 "It was assumed that this wouldn't be needed, because the method would only be called on the V section of matrix A"
             );
